@@ -97,6 +97,10 @@ def atoms_of(v):
 # API sites: effect traces
 # ---------------------------------------------------------------------------
 
+CLOSE_ANSWER = [False]
+GUARDS_SEEN = []
+
+
 def trace(mod, fname, mode, sign):
     """E3 run of one API -> (returned value, [(check name, [argument snapshots], event index)], evaluator, parameters)"""
     params = []
@@ -122,6 +126,8 @@ def trace(mod, fname, mode, sign):
         return NotImplemented
     ev = Evaluator(mod, inline=set(), import_policy=ipol, call_policy=cpol, sign_policy=lambda d, node=None: sign)
     ev.threshold_policy = lambda q, t, node: False
+    # tolerance guards (allclose): the general path first; analyse_site repeats the traces with the guards true when one was met
+    ev.close_policy = lambda g: (GUARDS_SEEN.append(g["text"]) or CLOSE_ANSWER[0])
     ev.import_values = {SWITCH: mode}
     ev.import_values_at_definition = {SWITCH: True}          # the package starts with checks on
     if "ROTATIONS" in getattr(mod, "assigns", {}):
@@ -138,11 +144,19 @@ def analyse_site(ctx, mod, fname, oblig):
     key = "C20:site:%s:%s" % (mod.rel, fname)
     gkey = "C20:guard:%s:%s:%s" % (mod.rel, fname, cname)
     reached = set()
-    for sign in (1, -1):
-        on_out, on_log, on_ev, params = trace(mod, fname, True, sign)
-        off_out, off_log, _e, _p = trace(mod, fname, False, sign)
+    del GUARDS_SEEN[:]
+    cases = [(1, False), (-1, False)]
+    for sign, close in cases:
+        CLOSE_ANSWER[0] = close
+        try:
+            on_out, on_log, on_ev, params = trace(mod, fname, True, sign)
+            off_out, off_log, _e, _p = trace(mod, fname, False, sign)
+        finally:
+            CLOSE_ANSWER[0] = False
+        if GUARDS_SEEN and not close and (sign, True) not in cases:
+            cases.append((sign, True))          # a fast path behind a tolerance guard: traced as well
         reached |= {n for n, _a, _i in on_log} | {n for n, _a, _i in off_log}
-        tag = "" if sign == 1 else ":alt"
+        tag = ("" if sign == 1 else ":alt") + (":fast-path" if close else "")
         # OFF: nothing is checked, same value
         ctx.check(not off_log, gkey + tag,
                   "with CHECKS.activated False, %s still calls checks.%s (the check does not follow the switch: inverted or "
@@ -528,6 +542,8 @@ def analyse_writers(ctx):
 
 
 def run(ctx):
+    from xfabsa import numeric as _NA
+    _NA.alias_rule(ctx, 'C20', ['xfab/tools.py', 'xfab/laue.py', 'xfab/symmetry.py', 'xfab/checks.py'])
     ctx.rule("site", "E3 trace of each API: ON the right check on the right value before use / on the returned value; OFF no check")
     ctx.rule("guard", "the checks follow the switch (ON/OFF traces, same value); unreached check calls sit under `if CHECKS.activated:`")
     ctx.rule("raise", "every raise in checks._check_* is ValueError")
